@@ -96,7 +96,7 @@ func C03_Middlewares() {
 	verif.Witness(!ran, "middleware-refuses")
 	if kind == 0 {
 		verif.Assert(verif.Implies(ran, !a.u.Locked.After(time.Now().UTC())), "lock middleware admits only users that are not locked")
-		verif.Assert(verif.Implies(!a.u.Locked.After(tb), ran), "lock middleware admits users that are not locked")
+		verif.Assert(verif.Implies(a.u.Locked.Before(tb), ran), "lock middleware admits users whose lock has run out")
 	} else {
 		verif.Assert(ran == a.u.Confirmed, "confirm middleware admits exactly the confirmed users")
 	}
